@@ -1134,4 +1134,28 @@ example : B64.a2b [81, 81, 61, 120, 61] = some [65, 12] ∧ B64.a2b [81] = none 
   decide +kernel
 example : B64.mkauth [117] [112, 97, 58, 115, 115] = B64.strText "basic dTpwYTpzcw==\n" := by decide +kernel
 
+
+/-! ### the order of the default addon chain -/
+
+/-- position of an addon in `mitmproxy.addons.default_addons()` (regenerated from the source on every run) -/
+def addonIdx (name : String) : Option Nat :=
+  let l := MitmVerif.Gen.C20.addonOrder
+  if l.contains name then some (l.idxOf name) else none
+
+/-- both addons are in the chain and the first runs before the second -/
+def addonBefore (a b : String) : Bool :=
+  match addonIdx a, addonIdx b with
+  | some i, some j => decide (i < j)
+  | _, _ => false
+
+/-- **the order the models assume is the order in the source**: hooks run in list order, and the models compose the
+    addons as ProxyAuth → (ScriptLoader, MapRemote, ModifyHeaders: user rewrites) → UpstreamAuth. ProxyAuth must see the
+    CLIENT's credential header before UpstreamAuth writes mitmproxy's own into the same field; UpstreamAuth's `request`
+    hook must run after every rewrite it is meant to react to. -/
+theorem addon_order_as_assumed :
+    addonBefore "ProxyAuth" "UpstreamAuth" = true ∧ addonBefore "ScriptLoader" "UpstreamAuth" = true ∧
+    addonBefore "MapRemote" "UpstreamAuth" = true ∧ addonBefore "ModifyHeaders" "UpstreamAuth" = true ∧
+    addonBefore "ProxyAuth" "NextLayer" = true := by
+  decide +kernel
+
 end MitmVerif.Props.C20
